@@ -38,6 +38,7 @@ def _c04(ctx):
     lazy.rule_lazy_adj(ctx)
     lazy.rule_lazy_cascade(ctx)
     lazy.rule_lazy_chain(ctx)
+    lazy.rule_lazy_caches(ctx)
     pair.rule_shadow(ctx)
 
 
@@ -61,7 +62,7 @@ PROPS = {
                        "four algorithms is not decided.",
     },
     "C03": {
-        "rules": [idx.rule_idx_c03],
+        "rules": [idx.rule_idx_c03, lazy.rule_lazy_caches],
         "explanation": "R-IDX restricted to the cofactor queries and their helpers (q_xx, q0_xx, q_bb, q_bx, T_row, T, dot) of the four "
                        "solvers and Adj::q_bb, plus the cache rule: every MoveToFront cache object is looked up with keys of one index space. "
                        "The algebraic identities of the generalised inverse are not decided.",
@@ -119,11 +120,13 @@ PROPS = {
                        "agree; R-YSIGN and R-UNIT for the writer. Numeric round trip and cross-format equality are not decided.",
     },
     "C13": {
-        "rules": [attr.rule_attr_flow, attr.rule_attr_export, esc.rule_esc_export, esc.rule_ysign, tab.rule_cluster_casts],
+        "rules": [attr.rule_attr_flow, attr.rule_attr_export, esc.rule_esc_export, esc.rule_ysign, tab.rule_cluster_casts,
+                  sib.rule_export_scale_siblings],
         "explanation": "R-ATTR: per GKFparser handler the accepted attribute names are extracted; every parsed attribute value reaches "
                        "the model (A2); attributes written by export_xml are accepted by the corresponding handler and the schema, and every "
                        "stored attribute is written back (A4). R-ESC for export_xml/DisplayObservationVisitor, R-YSIGN, and export covers all "
-                       "cluster kinds. That re-adjustment of the exported file needs no iteration is not decided.",
+                       "cluster kinds; R-UNIT: the exported standard deviation is scaled for exactly the angular observation types. "
+                       "That re-adjustment of the exported file needs no iteration is not decided.",
     },
     "C15": {
         "rules": [dim.rule_dim, pair.rule_memrep],
